@@ -26,7 +26,7 @@ Inductive tok :=
 | TSemi | TLC.       (* ';'  '{' : only as left context / terminator *)
 
 (* a token with its identity (position label); decisions only look at [snd] except [precedes] *)
-Definition ptok := (N * tok)%type.
+Notation ptok := (N * tok)%type (only parsing).
 
 Inductive ast :=
 | L (t : ptok)                 (* no operands *)
@@ -40,7 +40,7 @@ Definition rt (a : ast) : ptok :=
 (* ------------------------------------------------------------------ AST_state + position *)
 (* position = zipper over the token list: [bef] = tokens before tok (nearest first) *)
 Record st := mkSt { stk : list ast; bef : list ptok; depth : nat; asgn : nat }.
-Definition zst := (st * list ptok)%type.
+Notation zst := (st * list (N * tok))%type (only parsing).
 
 Definition set_stk (s : st) (k : list ast) := mkSt k (bef s) (depth s) (asgn s).
 Definition set_bef (s : st) (b : list ptok) := mkSt (stk s) b (depth s) (asgn s).
@@ -828,4 +828,4 @@ Fixpoint decl_like_from (b l : list ptok) : bool :=
        end)
       || decl_like_from (t :: b) r
   end.
-Definition decl_like (l : list ptok) : bool := decl_like_from [semi] l.
+Definition decl_like (l : list ptok) : bool := decl_like_from [semi] (l ++ [semi]).
